@@ -67,10 +67,11 @@ def path_worker(analysis: Analysis, spec) -> dict:
         kind, s, v = out
         loads = {"protocol": 0, "transport": 0}
         for e in s.events:
-            if e.kind == "load" and e.func == qual:
+            if e.kind == "load":
+                # loads in helpers called from the function count as well (the race window is the same)
                 if e.name == "protocol" and isinstance(e.recv, V) and e.recv.key() == tr.key():
                     loads["protocol"] += 1
-                elif e.name == "transport":
+                elif e.name == "transport" and isinstance(e.recv, V) and "protocol" in repr(e.recv.key()):
                     loads["transport"] += 1
         writes = [i for i, e in enumerate(s.events) if e.kind == "call" and e.name == "exttransport.write"]
         closes = [i for i, e in enumerate(s.events) if e.kind == "call" and e.name == "exttransport.close"]
